@@ -193,7 +193,8 @@ pub fn write_float_scientific<const FORMAT: u128>(
     options: &Options,
 ) -> usize {
     // PRECONDITIONS
-    debug_assert!(bytes.len() >= BUFFER_SIZE);
+    // NOTE: The caller may already have consumed 1 byte for the sign.
+    debug_assert!(bytes.len() >= BUFFER_SIZE - 1);
 
     // Config options.
     let format = NumberFormat::<{ FORMAT }> {};
@@ -268,7 +269,8 @@ pub fn write_float_nonscientific<const FORMAT: u128>(
     options: &Options,
 ) -> usize {
     // PRECONDITIONS
-    debug_assert!(bytes.len() >= BUFFER_SIZE);
+    // NOTE: The caller may already have consumed 1 byte for the sign.
+    debug_assert!(bytes.len() >= BUFFER_SIZE - 1);
 
     // Config options.
     let format = NumberFormat::<{ FORMAT }> {};
